@@ -286,6 +286,8 @@ func (ipv6cp *IPV6CPStateMachine) ReceivePacket(data []byte) error {
 		return ipv6cp.receiveTerminateRequest(pkt)
 	case LCPCodeTermAck:
 		return ipv6cp.receiveTerminateAck(pkt)
+	case LCPCodeCodeReject:
+		return ipv6cp.receiveCodeReject(pkt)
 	default:
 		return nil
 	}
@@ -543,6 +545,20 @@ func (ipv6cp *IPV6CPStateMachine) receiveTerminateAck(pkt *LCPPacket) error {
 	case IPV6CPStateOpened:
 		ipv6cp.sendConfigureRequest()
 		ipv6cp.setState(IPV6CPStateReqSent)
+	}
+
+	return nil
+}
+
+// receiveCodeReject handles incoming Code-Reject (RFC 1661 section 4.3, RXJ-):
+// the peer refusing one of the Configure codes is catastrophic, the
+// negotiation is terminated like LCP does.
+func (ipv6cp *IPV6CPStateMachine) receiveCodeReject(pkt *LCPPacket) error {
+	if len(pkt.Data) > 0 {
+		rejectedCode := pkt.Data[0]
+		if rejectedCode >= LCPCodeConfigRequest && rejectedCode <= LCPCodeConfigReject {
+			ipv6cp.closeInternal("Critical code rejected")
+		}
 	}
 
 	return nil
